@@ -9,7 +9,7 @@ def key(d):
 for d in sorted(ds, key=key):
     c = json.load(open(d + "/meta.json"))
     first = "missed" if "VIOLATION lines: 0" in c["first_confirmation"]["check"] else "reported"
-    now = "reported" if "rc=1" in c["current_check"] else "MISSED"
+    now = "reported" if "rc=1" in c["current_check"] else ("neutralised by a repair" if c.get("neutralised") else "MISSED")
     what = c["what"].replace("|", "/")
     need = c.get("needs_to_manifest", "").replace("|", "/").replace("\n", " ")[:90]
     print(f"| {c['property']} | {c['change']} | {c.get('round', '')} | {what[:110]} | {need} | {first} | {now} |")
